@@ -17,20 +17,20 @@ import (
 )
 
 type c04Case struct {
-	Key   int   `json:"key"`
-	NIn   int   `json:"nin"`
-	NOut  int   `json:"nout"`
-	Pos   int   `json:"pos"`
-	Insc  bool  `json:"inscription"`
+	Key  int  `json:"key"`
+	NIn  int  `json:"nin"`
+	NOut int  `json:"nout"`
+	Pos  int  `json:"pos"`
+	Insc bool `json:"inscription"`
 	// Trailer: bytes after an OP_RETURN appended to the inscription script (0 = no OP_RETURN)
 	Trailer int `json:"op_return_trailer_len,omitempty"`
 	// Resign: sign, apply the mutation to the SAME transaction object in place, sign again and
 	// verify: the second signature must be valid for the edited transaction
-	Resign bool `json:"resign_after_edit,omitempty"`
-	HT    uint8 `json:"hash_type"`
-	Mut   int   `json:"mutation"`
-	Param int   `json:"param"`
-	Stale bool  `json:"tx_carries_signer_side_prevout"`
+	Resign bool  `json:"resign_after_edit,omitempty"`
+	HT     uint8 `json:"hash_type"`
+	Mut    int   `json:"mutation"`
+	Param  int   `json:"param"`
+	Stale  bool  `json:"tx_carries_signer_side_prevout"`
 }
 
 // mutation classes
